@@ -90,7 +90,7 @@ PROPS['C19'] = dict(modules=['Hagall.Props.C19'], profiles=['malformed', 'mixed'
 PROPS['C15'] = dict(modules=['Hagall.Props.C15'], profiles=['mixed'], n=(20, 20), focus=None, tools=['drive', 'extract', 'auth'],
                     extra=['auth_harness'], topics=slice_of([], kinds=[]))
 
-PROPS['C20'] = dict(modules=['Hagall.Props.C20', 'Hagall.Props.C20Prim'], profiles=['module', 'join', 'mixed'], n=(120, 2000),
+PROPS['C20'] = dict(modules=['Hagall.Props.C20', 'Hagall.Props.C20Prim', 'Hagall.Props.C20Total'], profiles=['module', 'join', 'mixed'], n=(120, 2000),
                     focus={'quadSample', 'groundPlane', 'region', 'join'}, tools=['wire-race', 'drive', 'extract', 'grid'], extra=['race_harness', 'grid_harness'],
                     topics=slice_of(['quadSample', 'groundPlane', 'region', 'debugInfo'], outs={'groundPlaneResp', 'regionResp', 'debugInfoResp', 'error'}),
                     trusted=['go/cmd/grid (grid harness, exact-arithmetic monitors)', 'Lean Float32 = IEEE binary32 as compiled by leanc; Go float32 on amd64 without FMA'])
